@@ -66,6 +66,12 @@ pub fn with<R>(f: impl FnOnce(&mut World) -> R) -> R {
     })
 }
 
+/// hook H8: the packet id a new datagram session starts from (None outside a simulated world or when the run did not ask)
+pub fn initial_packet_id(client: bool) -> Option<u64> {
+    // one shot: the first session of the run starts there; the session that follows it starts where the code says
+    try_with(|w| if client { w.initial_packet_id.0.take() } else { w.initial_packet_id.1.take() }).flatten()
+}
+
 pub fn try_with<R>(f: impl FnOnce(&mut World) -> R) -> Option<R> {
     WORLD.with(|w| match w.try_borrow_mut() {
         Ok(mut guard) => guard.as_mut().map(f),
@@ -301,6 +307,9 @@ pub struct World {
     pub udp_capture: Option<Vec<(SocketAddr, SocketAddr, Vec<u8>)>>,
     /// in-path attacker: datagrams whose source or destination port is listed are not delivered but parked in `udp_held`
     /// (from, to, bytes) until the harness releases, replaces or drops them (`inject_datagram`)
+    /// first packet id of new Shadowsocks 2022 datagram sessions (client side, server side); None = the code's own 0.
+    /// Lets a run start a session a few ids before 2^64, where "a session ends rather than reuse a packet id" decides
+    pub initial_packet_id: (Option<u64>, Option<u64>),
     pub udp_hold_ports: Vec<u16>,
     pub udp_held: Vec<(SocketAddr, SocketAddr, Vec<u8>)>,
     pub dump_events: bool,
@@ -333,6 +342,7 @@ impl World {
             server_config: None,
             first_atomic_ports: Vec::new(),
             udp_capture: None,
+            initial_packet_id: (None, None),
             udp_hold_ports: Vec::new(),
             udp_held: Vec::new(),
             dump_events: std::env::var_os("VERIF_EVLOG").is_some(),
